@@ -84,6 +84,21 @@ class C17(Prop):
             # only speak for a running task if the task body runs inside the section of the handle's mutex
             fields = ([("locktrace", ["1"])] if fl == "threads" else []) + [("pipe", [pipe])]
             out.append(Case("time", fl, fields, evs, {"kind": "time-" + mode}))
+        # is_closed() asked from ANOTHER OS thread while the probe is inside a delivery (event `rq <event>`, see C19): the
+        # query waits for the cell the delivering thread holds, or sees the state before — never `closed` for a
+        # subscription that delivers afterwards (seed C17-11: the subscriber's cell was emptied for the duration of the call)
+        for pipe in (["hot", "0"], ["map", "add1", ["hot", "0"]], ["filter", "true", ["hot", "0"]],
+                     ["merge", ["hot", "0"], ["hot", "1"]], ["take", "5", ["hot", "0"]], ["scan", "add", "0", ["hot", "0"]],
+                     ["delay", "0", ["hot", "0"]], ["observeon", ["hot", "0"]]):
+            timed = pipe[0] in ("delay", "observeon")
+            for pre in ([], [["emit", "0", ["n", "1"]]]):
+                for post in ([["emit", "0", ["n", "3"]]], [["emit", "0", ["n", "3"]], ["unsub"], ["emit", "0", ["n", "4"]]],
+                             [["emit", "0", "c"]]):
+                    racer = [["rq", "emit", "0", ["n", "2"]]] if not timed else \
+                        [["emit", "0", ["n", "2"]], ["rq", "run"]]
+                    run = [["run"]] if timed else []
+                    evs = [["sub"]] + pre + run + racer + [["q", "closed"]] + post + run + [["q", "closed"]]
+                    out.append(Case("time", "threads", [("pipe", [pipe])], evs, {"kind": "race-closed"}))
         # composite subscriptions on their own: append / unsubscribe / is_closed histories
         out += cg.cases(random.Random(seed + 1717), tier, MODEL)
         # the composite merge_all hands out (one entry per started inner observable): is_closed() of the merged
@@ -151,6 +166,10 @@ class C17(Prop):
                 continue
             if b == "PANIC":
                 return {"kind": "panic", "event": k, "detail": "implementation panicked"}
+            if " rclosed=1" in b and not unsubbed:
+                # another thread was told `closed` in the middle of this event
+                closed = True
+                continue
             if e[0] == "unsub":
                 unsubbed = True
             if b.startswith("closed="):
